@@ -10,6 +10,7 @@ import (
 	"verif/sim/engine"
 	"verif/sim/model"
 	"verif/sim/vnet"
+	"verif/sim/zones"
 )
 
 func pick[T any](r *rand.Rand, xs ...T) T { return xs[r.Intn(len(xs))] }
@@ -407,6 +408,20 @@ func Generate(profile string, seed int64) *engine.Scenario {
 		genC06(b)
 	case "C07":
 		genC07(b)
+	case "C04":
+		genC04(b)
+	case "C08":
+		genC08(b)
+	case "C09":
+		genC09(b)
+	case "C10":
+		genC10(b)
+	case "C11":
+		genC11(b)
+	case "C17":
+		genC17(b)
+	case "C13":
+		genC13(b)
 	default:
 		panic("gen: unknown profile " + profile)
 	}
@@ -653,3 +668,583 @@ func genC07(b *builder) {
 
 var _ = netip.AddrPort{}
 var _ = vnet.Fault{}
+
+// ---- C09: termination and release ---------------------------------------------------------------
+
+func genC09(b *builder) {
+	r := b.r
+	sc := b.sc
+	queued := r.Intn(3) == 0
+	if queued {
+		b.base(baseOpt{minCtl: 1, maxCtl: 3, maxClients: 2, fixedBind: 2})
+	} else {
+		b.base(baseOpt{minCtl: 1, maxCtl: 3, maxClients: 2})
+		sc.Checkpoints = true
+	}
+	// a foreign process sits on the fixed port
+	if r.Intn(12) == 0 {
+		for _, c := range sc.Clients {
+			if ap, err := netip.ParseAddrPort(c.Bind); err == nil && ap.Port() != 0 {
+				sc.Foreign = append(sc.Foreign, vnet.ForeignPort{Proto: pick(r, "udp", "tcp"), Port: ap.Port()})
+				break
+			}
+		}
+	}
+	// injected system call failures
+	if r.Intn(6) == 0 {
+		n := 1 + r.Intn(2)
+		for i := 0; i < n; i++ {
+			kind := pick(r, "bind", "setdeadline", "udpwrite", "tcpwrite", "dial")
+			errno := map[string][]string{
+				"bind": {"EADDRINUSE", "EMFILE", "EADDRNOTAVAIL"}, "setdeadline": {"EINVAL"}, "udpwrite": {"ENETUNREACH", "EPERM", "ENOBUFS"},
+				"tcpwrite": {"EPIPE"}, "dial": {"EMFILE", "ENETUNREACH"},
+			}[kind]
+			sc.Faults = append(sc.Faults, vnet.Fault{Kind: kind, Nth: r.Intn(4), Errno: pick(r, errno...)})
+		}
+	}
+	nt := 1
+	if queued {
+		nt = 2 + r.Intn(4)
+	}
+	for t := 0; t < nt; t++ {
+		tk := engine.Task{Start: time.Duration(r.Intn(3)) * time.Millisecond}
+		ns := 1 + r.Intn(6)
+		if queued {
+			ns = 1 + r.Intn(3)
+		}
+		for s := 0; s < ns; s++ {
+			client := r.Intn(len(sc.Clients))
+			T := sc.Clients[client].Timeout
+			op := b.anyOp()
+			serial, known := b.target()
+			a := model.GenArgs(r, op, serial)
+			st := engine.Step{Kind: "call", Client: client, Op: op, Args: a}
+			rt := b.route(client, op, serial)
+			valid := func(after time.Duration) {
+				if op.HasReply() && op != model.GetDevices {
+					st.Plan.Emits = append(st.Plan.Emits, b.emit(rt, known, after, model.GenReply(r, op, &a, serial, model.ReplyOpts{}), "valid"))
+				}
+			}
+			if op == model.GetDevices {
+				for i := r.Intn(4); i > 0; i-- {
+					d := model.GenReply(r, model.GetDevice, &a, model.GenSerial(r), model.ReplyOpts{})
+					st.Plan.Emits = append(st.Plan.Emits, engine.Emit{After: b.delay(T), Via: "udp", From: fmt.Sprintf("%s.%d:60000", b.prefix, 100+r.Intn(100)), Data: d, Class: "valid"})
+				}
+				tk.Steps = append(tk.Steps, st)
+				continue
+			}
+			switch rt.Path {
+			case "tcp":
+				switch r.Intn(9) {
+				case 0:
+					st.Plan.TCP = "refuse"
+					st.Plan.ConnDelay = b.early(T)
+				case 1:
+					st.Plan.TCP = "blackhole"
+				case 2: // accept and stall
+					st.Plan.TCP = "accept"
+					st.Plan.ConnDelay = b.early(T) / 2
+				case 3: // reset after the request
+					st.Plan.TCP = "accept"
+					st.Plan.Emits = append(st.Plan.Emits, engine.Emit{After: b.delay(T), Via: "tcp-rst"})
+				case 4: // close without reply
+					st.Plan.TCP = "accept"
+					st.Plan.Emits = append(st.Plan.Emits, engine.Emit{After: b.delay(T), Via: "tcp-fin"})
+				case 5: // late connect + reply
+					st.Plan.TCP = "accept"
+					st.Plan.ConnDelay = b.delay(T)
+					valid(b.early(T) / 4)
+				default:
+					st.Plan.TCP = "accept"
+					valid(pick(r, b.early(T), T-1, T, T+1, 2*T))
+				}
+			default:
+				switch r.Intn(9) {
+				case 0: // silence
+				case 1: // late reply
+					valid(pick(r, T, T+1, 2*T, T+T/2))
+				case 2: // reply just in time
+					valid(pick(r, T-1, T-2, T/2, 0, 1))
+				case 3: // flood of irrelevant datagrams until past the deadline
+					step := T / time.Duration(4+r.Intn(12))
+					if step <= 0 {
+						step = 1
+					}
+					for at := time.Duration(r.Int63n(int64(step) + 1)); at < 3*T && len(st.Plan.Emits) < 60; at += step {
+						cl := pick(r, "wrongserial", "wronglen", "serial0", "garbage")
+						st.Plan.Emits = append(st.Plan.Emits, b.emit(rt, known, at, b.datagram(cl, op, &a, serial), cl))
+					}
+					if r.Intn(2) == 0 {
+						valid(pick(r, T-1, T/2, T+1))
+					}
+				case 4: // ICMP port unreachable (connected UDP only; harmless elsewhere)
+					st.Plan.Emits = append(st.Plan.Emits, engine.Emit{After: b.early(T), Via: "icmp"})
+				default:
+					valid(b.early(T))
+				}
+			}
+			tk.Steps = append(tk.Steps, st)
+		}
+		sc.Tasks = append(sc.Tasks, tk)
+	}
+}
+
+// ---- C11: discovery ---------------------------------------------------------------------------------
+
+func genC11(b *builder) {
+	r := b.r
+	sc := b.sc
+	b.base(baseOpt{minCtl: 0, maxCtl: 6, maxClients: 2})
+	tk := engine.Task{}
+	ns := 1 + r.Intn(3)
+	for s := 0; s < ns; s++ {
+		client := r.Intn(len(sc.Clients))
+		T := sc.Clients[client].Timeout
+		st := engine.Step{Kind: "call", Client: client, Op: model.GetDevices}
+		a := model.Args{}
+		nsrc := r.Intn(7)
+		for i := 0; i < nsrc; i++ {
+			var serial uint32
+			var from string
+			if i < len(b.ctls) && r.Intn(4) > 0 {
+				serial, from = b.ctls[i].serial, fmt.Sprintf("%s:%d", b.ctls[i].ip, b.ctls[i].port)
+			} else {
+				serial, from = model.GenSerial(r), fmt.Sprintf("%s.%d:60000", b.prefix, 120+r.Intn(100))
+			}
+			nrep := r.Intn(4)
+			var last []byte
+			for k := 0; k < nrep; k++ {
+				cl := "valid"
+				if r.Intn(3) == 0 {
+					cl = pick(r, "wronglen", "wrongproto", "wrongfn", "malformed", "garbage", "valid-ood", "proto19", "serial0")
+				}
+				d := b.datagram(cl, model.GetDevice, &a, serial)
+				if cl == "valid" && last != nil && r.Intn(3) == 0 {
+					d = append([]byte(nil), last...) // exact duplicate
+					cl = "duplicate"
+				}
+				if cl == "valid" {
+					last = d
+				}
+				st.Plan.Emits = append(st.Plan.Emits, engine.Emit{After: b.delay(T), Via: "udp", From: from, Data: d, Class: cl})
+			}
+		}
+		r.Shuffle(len(st.Plan.Emits), func(i, j int) { st.Plan.Emits[i], st.Plan.Emits[j] = st.Plan.Emits[j], st.Plan.Emits[i] })
+		tk.Steps = append(tk.Steps, st)
+	}
+	sc.Tasks = append(sc.Tasks, tk)
+}
+
+// ---- C10: listener ----------------------------------------------------------------------------------
+
+// eventDatagram draws one datagram for the listener.
+func (b *builder) eventDatagram() ([]byte, string) {
+	r := b.r
+	a := model.Args{}
+	serial := model.GenSerial(r)
+	if len(b.ctls) > 0 && r.Intn(2) == 0 {
+		serial = b.ctls[r.Intn(len(b.ctls))].serial
+	}
+	cl := "valid"
+	switch r.Intn(10) {
+	case 0:
+		cl = "v19"
+	case 1:
+		cl = pick(r, "wronglen", "serial0", "wrongfn", "wrongproto", "malformed", "garbage", "valid-ood")
+	case 2:
+		cl = pick(r, "wronglen", "garbage")
+	}
+	switch cl {
+	case "v19":
+		return model.GenReply(r, model.GetStatus, &a, serial, model.ReplyOpts{V19: true, Junk: r.Intn(4) == 0}), cl
+	case "wrongproto":
+		d := model.GenReply(r, model.GetStatus, &a, serial, model.ReplyOpts{})
+		for d[0] == 0x17 || d[0] == 0x19 {
+			d[0] = byte(r.Intn(256))
+		}
+		return d, cl
+	}
+	return b.datagram(cl, model.GetStatus, &a, serial), cl
+}
+
+func (b *builder) listenStep(client int) engine.Step {
+	r := b.r
+	st := engine.Step{Kind: "listen", Client: client}
+	n := r.Intn(12)
+	if r.Intn(5) == 0 {
+		n = r.Intn(40)
+	}
+	senders := []string{b.prefix + ".100:60000", b.prefix + ".101:60000", b.prefix + ".77:54321"}
+	span := time.Duration(1+r.Intn(500)) * time.Millisecond
+	for i := 0; i < n; i++ {
+		d, cl := b.eventDatagram()
+		at := time.Duration(r.Int63n(int64(span)))
+		if r.Intn(4) == 0 {
+			at = pick(r, 0, 1, span/2, span)
+		}
+		st.Feed = append(st.Feed, engine.Emit{After: at, Via: "udp", From: senders[r.Intn(1+r.Intn(3))], Data: d, Class: cl})
+	}
+	// stop: before any datagram, between datagrams, or after the last one
+	switch r.Intn(5) {
+	case 0:
+		st.StopAfter = 1
+	case 1:
+		st.StopAfter = span + time.Duration(r.Intn(100))*time.Millisecond + 1
+	default:
+		st.StopAfter = time.Duration(r.Int63n(int64(span))) + 1
+	}
+	if r.Intn(3) == 0 {
+		for i := 0; i < 6; i++ {
+			st.Holds = append(st.Holds, pick(r, 0, 0, time.Millisecond, span/3, span))
+		}
+	}
+	return st
+}
+
+func genC10(b *builder) {
+	r := b.r
+	sc := b.sc
+	b.base(baseOpt{minCtl: 0, maxCtl: 3, maxClients: 2, fixedBind: 1})
+	if r.Intn(10) == 0 {
+		if ap, err := netip.ParseAddrPort(sc.Clients[0].Listen); err == nil {
+			sc.Foreign = append(sc.Foreign, vnet.ForeignPort{Proto: "udp", Port: ap.Port()})
+		}
+	}
+	cycles := 1 + r.Intn(3)
+	tk := engine.Task{}
+	for i := 0; i < cycles; i++ {
+		tk.Steps = append(tk.Steps, b.listenStep(0))
+	}
+	sc.Tasks = append(sc.Tasks, tk)
+	if len(sc.Clients) > 1 && r.Intn(2) == 0 {
+		t2 := engine.Task{Start: time.Duration(r.Intn(50)) * time.Millisecond}
+		t2.Steps = append(t2.Steps, b.listenStep(1))
+		sc.Tasks = append(sc.Tasks, t2)
+	}
+}
+
+// ---- C17: insulation ----------------------------------------------------------------------------------
+
+func genC17(b *builder) {
+	r := b.r
+	sc := b.sc
+	b.base(baseOpt{minCtl: 1, maxCtl: 4, maxClients: 2, directed: 2, extraEndpoints: r.Intn(2) == 0})
+	tk := engine.Task{}
+	if r.Intn(4) > 0 {
+		tk.Steps = append(tk.Steps, engine.Step{Kind: "mutate-config", Client: 0})
+		if len(sc.Clients) > 1 {
+			tk.Steps = append(tk.Steps, engine.Step{Kind: "mutate-config", Client: 1})
+		}
+	}
+	ns := 1 + r.Intn(6)
+	for s := 0; s < ns; s++ {
+		client := r.Intn(len(sc.Clients))
+		T := sc.Clients[client].Timeout
+		switch r.Intn(7) {
+		case 0:
+			tk.Steps = append(tk.Steps, engine.Step{Kind: "mutate-devlist", Client: client, Delay: time.Duration(r.Intn(2))})
+			continue
+		case 1:
+			a := model.GenArgs(r, model.PutCard, model.GenSerial(r))
+			tk.Steps = append(tk.Steps, engine.Step{Kind: "clone", Client: client, Args: a})
+			continue
+		}
+		op := b.anyOp()
+		if r.Intn(2) == 0 {
+			op = pick(r, model.GetDevice, model.GetDevices, model.GetStatus, model.GetCardByIndex, model.GetCardByID, model.GetTimeProfile, model.GetListener, model.PutCard, model.SetTimeProfile, model.AddTask, model.ActivateKeypads)
+		}
+		serial, known := b.target()
+		a := model.GenArgs(r, op, serial)
+		st := b.callStep(client, op, a, known, b.early(T)/2, model.ReplyOpts{})
+		if op == model.GetDevices {
+			for i, c := range b.ctls {
+				d := model.GenReply(r, model.GetDevice, &a, c.serial, model.ReplyOpts{})
+				st.Plan.Emits = append(st.Plan.Emits, engine.Emit{After: time.Duration(i+1) * T / 8, Via: "udp", From: fmt.Sprintf("%s:%d", c.ip, c.port), Data: d, Class: "valid"})
+			}
+		}
+		st.Scribble = r.Intn(2) == 0
+		st.MutateRes = r.Intn(4) == 0
+		tk.Steps = append(tk.Steps, st)
+	}
+	sc.Tasks = append(sc.Tasks, tk)
+}
+
+// ---- C04: nothing crashes ---------------------------------------------------------------------------
+
+func genC04(b *builder) {
+	r := b.r
+	sc := b.sc
+	b.base(baseOpt{minCtl: 1, maxCtl: 3, maxClients: 2})
+	if r.Intn(6) == 0 { // a client built from zero values only
+		sc.Clients = append(sc.Clients, engine.ClientCfg{Timeout: pick(r, timeouts...), NilDevs: true})
+	}
+	nt := 1 + r.Intn(2)
+	for t := 0; t < nt; t++ {
+		tk := engine.Task{}
+		ns := 1 + r.Intn(5)
+		for s := 0; s < ns; s++ {
+			client := r.Intn(len(sc.Clients))
+			T := sc.Clients[client].Timeout
+			if r.Intn(8) == 0 && t == 0 && sc.Clients[client].Listen != "" {
+				st := b.listenStep(client)
+				for i := range st.Feed {
+					if r.Intn(2) == 0 {
+						serial := model.GenSerial(r)
+						st.Feed[i].Data = pick(r, model.GenWild(r, model.GetStatus, serial), b.datagram("garbage", model.GetStatus, &model.Args{}, serial))
+						st.Feed[i].Class = "wild"
+					}
+				}
+				tk.Steps = append(tk.Steps, st)
+				continue
+			}
+			op := b.anyOp()
+			serial, known := b.target()
+			var a model.Args
+			if r.Intn(2) == 0 {
+				a = model.GenHostile(r, op, serial)
+			} else {
+				a = model.GenArgs(r, op, serial)
+			}
+			st := engine.Step{Kind: "call", Client: client, Op: op, Args: a}
+			rt := b.route(client, op, a.Serial)
+			if rt.Path == "tcp" {
+				st.Plan.TCP = "accept"
+			}
+			n := 1 + r.Intn(3)
+			for i := 0; i < n; i++ {
+				var d []byte
+				cl := "wild"
+				rop := op
+				if op == model.GetDevices {
+					rop = model.GetDevice
+				}
+				switch r.Intn(6) {
+				case 0:
+					cl = "garbage"
+					d = b.datagram(cl, rop, &a, a.Serial)
+				case 1:
+					cl = pick(r, classes...)
+					d = b.datagram(cl, rop, &a, a.Serial)
+				case 2:
+					cl = "valid-ood"
+					d = b.datagram(cl, rop, &a, a.Serial)
+				case 3:
+					cl = "valid"
+					d = b.datagram(cl, rop, &a, a.Serial)
+				default:
+					s := a.Serial
+					if op == model.GetDevices {
+						s = model.GenSerial(r)
+					}
+					d = model.GenWild(r, rop, s)
+				}
+				st.Plan.Emits = append(st.Plan.Emits, b.emit(rt, known, b.early(T), d, cl))
+			}
+			tk.Steps = append(tk.Steps, st)
+		}
+		sc.Tasks = append(sc.Tasks, tk)
+	}
+}
+
+// ---- C08: concurrency ---------------------------------------------------------------------------------
+
+func genC08(b *builder) {
+	r := b.r
+	sc := b.sc
+	b.base(baseOpt{minCtl: 1, maxCtl: 4, maxClients: 3, fixedBind: pick(r, 0, 0, 2)})
+	nt := 2 + r.Intn(5)
+	if r.Intn(3) == 0 {
+		nt = 2
+	}
+	listening := false
+	for t := 0; t < nt; t++ {
+		tk := engine.Task{}
+		if r.Intn(3) == 0 {
+			tk.Start = time.Duration(r.Intn(4)) * time.Millisecond
+		}
+		ns := 1 + r.Intn(4)
+		for s := 0; s < ns; s++ {
+			client := r.Intn(len(sc.Clients))
+			T := sc.Clients[client].Timeout
+			switch {
+			case !listening && t > 0 && r.Intn(10) == 0:
+				// a listener started, fed and stopped alongside the calls
+				listening = true
+				tk.Steps = append(tk.Steps, b.listenStep(client))
+				continue
+			case r.Intn(8) == 0:
+				// discovery alongside
+				st := engine.Step{Kind: "call", Client: client, Op: model.GetDevices}
+				for _, c := range b.ctls {
+					if r.Intn(4) > 0 {
+						d := model.GenReply(r, model.GetDevice, &model.Args{}, c.serial, model.ReplyOpts{})
+						st.Plan.Emits = append(st.Plan.Emits, engine.Emit{After: b.early(T), Via: "udp", From: fmt.Sprintf("%s:%d", c.ip, c.port), Data: d, Class: "valid"})
+					}
+				}
+				tk.Steps = append(tk.Steps, st)
+				continue
+			}
+			op := b.anyCallOp()
+			serial, known := b.target()
+			if known == nil || r.Intn(3) == 0 {
+				// same controller as somebody else, whenever possible
+				c := &b.ctls[0]
+				serial, known = c.serial, c
+			}
+			a := model.GenArgs(r, op, serial)
+			st := b.callStep(client, op, a, known, b.early(T), model.ReplyOpts{Junk: true})
+			if st.Plan.TCP == "accept" {
+				// connecting takes part of the timeout as well
+				st.Plan.ConnDelay = b.early(T) / 3
+				for i := range st.Plan.Emits {
+					st.Plan.Emits[i].After = b.early(T) / 2
+				}
+			}
+			tk.Steps = append(tk.Steps, st)
+		}
+		sc.Tasks = append(sc.Tasks, tk)
+	}
+}
+
+// ---- C13: civil dates in every zone ----------------------------------------------------------------
+
+var zonesWithHoles []string
+
+func holes() []string {
+	if zonesWithHoles == nil {
+		for _, n := range zones.Names {
+			if len(zones.MissingMidnights(n)) > 0 {
+				zonesWithHoles = append(zonesWithHoles, n)
+			}
+		}
+	}
+	return zonesWithHoles
+}
+
+type zoneGen struct {
+	r    *rand.Rand
+	name string
+	loc  *time.Location
+	days []zones.Day
+}
+
+// date draws a date: half of them days whose local midnight is missing in the zone, and their neighbours.
+func (z *zoneGen) date(minY, maxY int) model.Date {
+	r := z.r
+	for i := 0; i < 50; i++ {
+		var d model.Date
+		if len(z.days) > 0 && r.Intn(2) == 0 {
+			x := z.days[r.Intn(len(z.days))]
+			t := time.Date(x.Y, time.Month(x.M), x.D, 12, 0, 0, 0, time.UTC).AddDate(0, 0, pick(r, 0, 0, 0, -1, 1))
+			d = model.Date{Y: t.Year(), M: int(t.Month()), D: t.Day()}
+		} else {
+			d = model.GenDate(r)
+		}
+		if d.Y < minY || d.Y > maxY {
+			continue
+		}
+		if zones.NoInstant(z.loc, d.Y, d.M, d.D) {
+			continue
+		}
+		return d
+	}
+	return model.Date{Y: 2024, M: 6, D: 15}
+}
+
+func (z *zoneGen) clock() (int, int, int) {
+	r := z.r
+	switch r.Intn(4) {
+	case 0:
+		return pick(r, 0, 0, 1, 2, 3, 23), pick(r, 0, 30, 59), pick(r, 0, 59)
+	}
+	return r.Intn(24), r.Intn(60), r.Intn(60)
+}
+
+// fix overwrites the date-bearing fields of a reply with zone-biased values.
+func (z *zoneGen) fix(op model.Op, b []byte) {
+	for _, f := range model.ReplyFields(op) {
+		switch f.Kind {
+		case model.KDate:
+			if b[f.Off] == 0 && b[f.Off+1] == 0 && b[f.Off+2] == 0 && b[f.Off+3] == 0 && z.r.Intn(2) == 0 {
+				continue
+			}
+			d := z.date(1, 9999)
+			b[f.Off], b[f.Off+1], b[f.Off+2], b[f.Off+3] = bcd(d.Y/100), bcd(d.Y%100), bcd(d.M), bcd(d.D)
+		case model.KDateTime:
+			d := z.date(1, 9999)
+			h, mi, s := z.clock()
+			copy(b[f.Off:], []byte{bcd(d.Y / 100), bcd(d.Y % 100), bcd(d.M), bcd(d.D), bcd(h), bcd(mi), bcd(s)})
+		case model.KSysDate:
+			d := z.date(2000, 2068)
+			b[f.Off], b[f.Off+1], b[f.Off+2] = bcd(d.Y%100), bcd(d.M), bcd(d.D)
+		case model.KSysTime:
+			h, mi, s := z.clock()
+			b[f.Off], b[f.Off+1], b[f.Off+2] = bcd(h), bcd(mi), bcd(s)
+		}
+	}
+}
+
+func bcd(v int) byte { return byte((v/10)%10)<<4 | byte(v%10) }
+
+func genC13(b *builder) {
+	r := b.r
+	sc := b.sc
+	b.base(baseOpt{minCtl: 1, maxCtl: 2, maxClients: 1})
+	z := &zoneGen{r: r}
+	for z.loc == nil {
+		if r.Intn(2) == 0 && len(holes()) > 0 {
+			z.name = pick(r, holes()...)
+		} else {
+			z.name = pick(r, zones.Names...)
+		}
+		z.loc = zones.Load(z.name)
+	}
+	z.days = zones.MissingMidnights(z.name)
+	sc.TZ = z.name
+	sc.ParseDates = r.Intn(2) == 0
+
+	dated := []model.Op{model.PutCard, model.SetTimeProfile, model.AddTask, model.GetCardByIndex, model.GetCardByID, model.GetTimeProfile,
+		model.GetDevice, model.GetTime, model.SetTime, model.GetEvent, model.GetStatus}
+	tk := engine.Task{}
+	ns := 1 + r.Intn(5)
+	for s := 0; s < ns; s++ {
+		T := sc.Clients[0].Timeout
+		if r.Intn(8) == 0 && sc.Clients[0].Listen != "" {
+			st := engine.Step{Kind: "listen", Client: 0, StopAfter: 200 * time.Millisecond}
+			n := 1 + r.Intn(6)
+			for i := 0; i < n; i++ {
+				d := model.GenReply(r, model.GetStatus, &model.Args{}, model.GenSerial(r), model.ReplyOpts{V19: r.Intn(5) == 0})
+				z.fix(model.GetStatus, d)
+				st.Feed = append(st.Feed, engine.Emit{After: time.Duration(i+1) * 10 * time.Millisecond, Via: "udp", From: b.prefix + ".100:60000", Data: d, Class: "valid"})
+			}
+			tk.Steps = append(tk.Steps, st)
+			continue
+		}
+		op := pick(r, dated...)
+		serial, known := b.target()
+		a := model.GenArgs(r, op, serial)
+		switch op {
+		case model.PutCard:
+			a.Card.From, a.Card.To = z.date(1, 9999), z.date(1, 9999)
+			a.Formats = nil
+		case model.SetTimeProfile:
+			a.Profile.From, a.Profile.To = z.date(1, 9999), z.date(1, 9999)
+		case model.AddTask:
+			a.Task.From, a.Task.To = z.date(1, 9999), z.date(1, 9999)
+		}
+		st := b.callStep(0, op, a, known, b.early(T)/2, model.ReplyOpts{})
+		for i := range st.Plan.Emits {
+			z.fix(op, st.Plan.Emits[i].Data)
+			if op == model.GetCardByID {
+				// keep the echoed card number
+				d := st.Plan.Emits[i].Data
+				d[8], d[9], d[10], d[11] = byte(a.U32), byte(a.U32>>8), byte(a.U32>>16), byte(a.U32>>24)
+			}
+		}
+		tk.Steps = append(tk.Steps, st)
+		if (op == model.GetCardByIndex || op == model.GetCardByID) && r.Intn(2) == 0 {
+			tk.Steps = append(tk.Steps, engine.Step{Kind: "putback", Client: 0, Op: model.PutCard, Args: model.Args{Serial: serial}})
+		}
+	}
+	sc.Tasks = append(sc.Tasks, tk)
+}
